@@ -458,7 +458,8 @@ def jose_headers(token):
     return None, None
 
 
-def run_flow(pair, scope, claims=None, extra_args=None, do_refresh=True, do_introspect=True, user=USER):
+def run_flow(pair, scope, claims=None, extra_args=None, do_refresh=True, do_introspect=True, user=USER,
+             refresh_pauses=(37, 41)):
     """Drive one complete flow. Returns an observation dict; raises FlowFailure(stage, detail) when a step
     does not complete."""
     from idpyoidc.message.oauth2 import is_error_message
@@ -604,17 +605,54 @@ def run_flow(pair, scope, claims=None, extra_args=None, do_refresh=True, do_intr
                                  authn_method="client_secret_basic", state=st)
         ir = stage("introspection", intro)
         obs["introspection"] = ir.to_dict() if hasattr(ir, "to_dict") else dict(ir)
+    # ---- refresh rounds: the clock moves on, the RP refreshes, and every observation point is read again for the
+    #      REFRESHED access token (token response of the refresh, RP state, introspection, userinfo, session record)
+    obs["refresh_rounds"] = []
     if at and do_refresh and (obs["token_response"] or {}).get("refresh_token"):
-        def refresh():
-            return rp.refresh_access_token(st)
-        rr = stage("refresh", refresh)
-        obs["refresh_response"] = rr.to_dict()
-        obs["token_response_refresh"] = dict(pair.last_token_response) if pair.last_token_response else None
-        if obs["session_id"]:
-            g = server.context.session_manager.get_grant(obs["session_id"])
-            obs["op_tokens_after_refresh"] = [
-                {"class": t.token_class, "value": t.value, "scope": list(t.scope or []),
-                 "expires_at": t.expires_at, "issued_at": t.issued_at, "used": t.used, "revoked": t.revoked}
-                for t in g.issued_token]
+        for rnd, pause in enumerate(refresh_pauses):
+            if pair.clock is not None:
+                pair.clock.tick(pause)
+            n_times = len(pair.token_times)
+
+            def refresh():
+                return rp.refresh_access_token(st)
+            rr = stage("refresh", refresh)
+            if rnd == 0:      # kept for the first round (older consumers)
+                obs["refresh_response"] = rr.to_dict()
+                obs["token_response_refresh"] = dict(pair.last_token_response) if pair.last_token_response else None
+            tr = dict(pair.last_token_response) if pair.last_token_response else {}
+            new_at = tr.get("access_token")
+            rd = {"round": rnd + 1, "pause": pause, "token_response": tr,
+                  "token_times": list(pair.token_times[n_times:]),
+                  "rp_state": {k: v for k, v in cst.get(st).items()},
+                  "rp_response": rr.to_dict()}
+            if new_at and do_introspect:
+                def intro2():
+                    return rp.do_request("introspection", request_args={"token": new_at},
+                                         authn_method="client_secret_basic", state=st)
+                ir2 = stage("introspection", intro2)
+                rd["introspection"] = ir2.to_dict() if hasattr(ir2, "to_dict") else dict(ir2)
+
+                def ui2():
+                    return rp.get_user_info(st)
+                try:
+                    u2 = stage("userinfo_after_refresh", ui2)
+                    rd["userinfo"] = dict(u2)
+                except FlowFailure as f:
+                    rd["userinfo_error"] = f.detail[:200]
+            if obs["session_id"]:
+                g = server.context.session_manager.get_grant(obs["session_id"])
+                rd["op_grant"] = {"sub": g.sub, "scope": list(g.scope or []),
+                                  "client_id": server.context.session_manager.decrypt_session_id(obs["session_id"])[1],
+                                  "nonce": (g.authorization_request or {}).get("nonce")}
+                rd["op_tokens"] = [
+                    {"class": t.token_class, "value": t.value, "scope": list(t.scope or []),
+                     "expires_at": t.expires_at, "issued_at": t.issued_at, "used": t.used, "revoked": t.revoked}
+                    for t in g.issued_token]
+                if rnd == 0:
+                    obs["op_tokens_after_refresh"] = rd["op_tokens"]
+            obs["refresh_rounds"].append(rd)
+            if not tr.get("refresh_token"):
+                break
     obs["http_log"] = [(a, b) for a, b, _ in pair.log]
     return obs
